@@ -536,6 +536,23 @@ def std_transfer(I, fr, t, c, pth):
             fr.storev(dest, Agg(list(v.items), ('vec', 'Vec')))
             return True
         return False
+    # checked slicing: <[T]>::get(range) with known ends
+    if name == 'get' and len(args) == 2 and res.startswith('core::slice::<impl [T]>::get'):
+        rp_ = op_place(args[1])
+        ty = fr.body.local_ty(rp_['l']) if rp_ is not None and not rp_['p'] else ''
+        rng = fr.operand(args[1])
+        s = seq_of(I, fr, args[0])
+        if isinstance(s, Agg):
+            if ty.startswith('std::ops::Range<') and isinstance(rng, RangeIt):
+                lo, hi = rng.cur, rng.end
+                # RangeIt normalises end >= start; an inverted range is rare enough to leave undecided
+                fr.storev(dest, Opt('some', Agg(s.items[lo:hi])) if lo <= hi <= len(s.items) else Opt('none', TOP))
+                return True
+            k = as_int(rng)
+            if k is not None and ty in ('usize', ''):
+                fr.storev(dest, Opt('some', s.items[k]) if k < len(s.items) else Opt('none', TOP))
+                return True
+        return False
     # slicing with ranges whose ends are known
     if name in ('index', 'index_mut') and len(args) == 2 and ('std::vec::Vec' in res or res.startswith('core::slice::index::<impl std::ops::Index') or res.startswith('std::array::<impl std::ops::Index')):
         rp_ = op_place(args[1])
